@@ -458,6 +458,13 @@ func c07ErrorPaths(r *rt.Rec, rng *rand.Rand, wrap func(storage.Store) storage.S
 				if !reflect.DeepEqual(arg, snap) {
 					r.Violation("options-modified-after-return/"+m, "the caller's LookupOptions value differs from its snapshot after the lookup returned", w)
 				}
+				// a lookup that has returned holds nothing: a write right after it
+				// must go through (a lock left behind on an error path blocks it;
+				// the all-blocked watchdog then reports the deadlock)
+				if i%4 == 0 || err != nil {
+					r.Begin(fmt.Sprintf("error-paths(%s) write after %s [%s] (err=%v)", label, q, ref.OptionsString(lo), err))
+					g.AddTriples(ctx, ts[:1])
+				}
 				if err != nil {
 					r.NontrivialDistinct(1)
 				}
